@@ -20,6 +20,7 @@ fi
 case $ID in
   C06|C07|C08|C14) PKG=lane ;;
   C19) PKG=c19 ;;
+  C01) PKG=c01 ;;
   C05) PKG=c05 ;;
   C04) PKG=c04 ;;
   C11) PKG=c11 ;;
